@@ -222,6 +222,57 @@ pub fn run(ctx: &mut Ctx) {
         jax::cleanup();
     }
 
+    // ---- term ids over the whole 7-digit range (next to the end of the id table and next to the block sizes a
+    // table that grows on demand would use): every rotation of the supply order, and the reversed order
+    {
+        use crate::model::Kind;
+        let border: [u32; 14] = [2, 4095, 4096, 4097, 8192, 65_535, 65_536, 1_048_575, 1_048_576, 1_048_577, 5_000_000, 8_388_608, 9_999_998, 9_999_999];
+        let mut base = Facts::default();
+        base.version = (2024, 2, 29);
+        base.terms.push(Facts::term(1, "All"));
+        base.terms.push(Facts::term(118, "Phenotypic abnormality"));
+        base.edges.push((118, 1));
+        for (i, id) in border.iter().enumerate() {
+            base.terms.push(Facts::term(*id, &format!("Leaf {id}")));
+            // every third border term hangs below the previous one, the others below HP:118
+            base.edges.push((*id, if i % 3 == 2 { border[i - 1] } else { 118 }));
+            base.anns.push(Facts::ann(Kind::Gene, 5000 + i as u32, &format!("BG{i}"), Some(*id)));
+            if i % 2 == 0 {
+                base.anns.push(Facts::ann(Kind::Omim, 700_000 + i as u32, &format!("Border disease {id}"), Some(*id)));
+            } else {
+                base.anns.push(Facts::ann(Kind::Orpha, 700_000 + i as u32, &format!("Border orpha {id}"), Some(*id)));
+            }
+        }
+        let n = base.terms.len();
+        ctx.space("ids-over-the-whole-range/orders", &format!("terms 1, 118 and {border:?} (leaves and two-step chains below 118; a gene and a disease on each) x every rotation of the term order + the reversed order, via Builder, binary v3 and hp.obo (the class of each path must be a singleton equal to the model)"));
+        let r = RefOnt::derive(&base);
+        let exp_min = Obs::expected(&r, Mode::Minimal);
+        let exp_def = Obs::expected(&r, Mode::Defaults);
+        for rot in 0..=n {
+            if !ctx.take() {
+                continue;
+            }
+            ctx.state();
+            ctx.nontrivial();
+            let mut order: Vec<usize> = (0..n).collect();
+            if rot == n {
+                order.reverse();
+            } else {
+                order.rotate_left(rot);
+            }
+            let oname = format!("term order {:?}", order.iter().map(|i| base.terms[*i].id).collect::<Vec<_>>());
+            let case = || json!({"facts": base.to_json(), "order": oname});
+            let f = Facts { terms: apply_perm(&base.terms, &order), ..base.clone() };
+            ctx.transitions(3 * f.n_steps());
+            // each order is its own class against the model (the model is order-free)
+            Class::new().add(ctx, drive::build(&f, Mode::Minimal), &exp_min, "builder", &oname, &case);
+            Class::new().add(ctx, from_bytes(&encode::encode(&f, &EncOpts::v(3))), &exp_def, "binary v3", &oname, &case);
+            Class::new().add(ctx, from_jax(&f, &JaxOpts::default(), false), &exp_def, "jax", &oname, &case);
+            ctx.sample(|| json!({"order": oname}));
+        }
+        jax::cleanup();
+    }
+
     // ---- binary v3: permutations of the records of every section and of the ids inside records
     {
         let n = if thorough { 4 } else { 3 };
